@@ -191,7 +191,7 @@ func Judge(o *reconlib.Outcome) vrun.Result {
 			}
 			// closed although every resume could have succeeded
 			return vrun.Violation("an upstream was closed although the broker accepted its resume", "upstream-closed-despite-recovery:"+faultKey(s),
-				map[string]any{"upstream": i, "qos": u.Spec.QoS, "closed_events": u.ClosedErrs, "resume_requests_on_links": u.State.Resumes, "probe": u.ProbeErr})
+				map[string]any{"upstream": i, "id": u.ID.String()[:8], "qos": u.Spec.QoS, "closed_events": u.ClosedErrs, "resume_requests_on_links": u.State.Resumes, "probe": u.ProbeErr, "trace": lifecycleTrace(o)})
 		}
 	}
 	for i, d := range o.Downs {
@@ -209,7 +209,7 @@ func Judge(o *reconlib.Outcome) vrun.Result {
 		}
 		if !mayBeClosed {
 			return vrun.Violation("a downstream was closed although the broker accepted its resume", "downstream-closed-despite-recovery:"+faultKey(s),
-				map[string]any{"downstream": i, "qos": d.Spec.QoS, "closed_events": d.ClosedErrs, "resume_requests_on_links": d.State.Resumes})
+				map[string]any{"downstream": i, "id": d.ID.String()[:8], "qos": d.Spec.QoS, "closed_events": d.ClosedErrs, "resume_requests_on_links": d.State.Resumes, "read_stream_closed": d.ReadStreamClosed, "resumed_events": d.Resumed, "trace": lifecycleTrace(o)})
 		}
 	}
 	fast := true
@@ -284,6 +284,33 @@ func completedResumes(o *reconlib.Outcome, id uuid.UUID) int {
 		}
 	}
 	return n
+}
+
+// lifecycleTrace is a compact transport-boundary trace of connection and stream lifecycle messages (for witnesses).
+func lifecycleTrace(o *reconlib.Outcome) []string {
+	var res []string
+	for _, li := range o.LinkInfos {
+		res = append(res, fmt.Sprintf("link %d mode=%s", li.ID, li.Mode))
+		for _, r := range li.Log {
+			switch m := r.Msg.(type) {
+			case *message.ConnectRequest, *message.ConnectResponse, *message.Disconnect:
+				res = append(res, fmt.Sprintf("  %s %s ok=%v t=%s", r.Dir, r.Class, r.OK, r.VT.Format("04:05.000")))
+			case *message.UpstreamResumeRequest:
+				res = append(res, fmt.Sprintf("  %s %s stream=%s req=%d ok=%v t=%s", r.Dir, r.Class, m.StreamID.String()[:8], m.RequestID, r.OK, r.VT.Format("04:05.000")))
+			case *message.UpstreamResumeResponse:
+				res = append(res, fmt.Sprintf("  %s %s req=%d code=%d ok=%v t=%s", r.Dir, r.Class, m.RequestID, m.ResultCode, r.OK, r.VT.Format("04:05.000")))
+			case *message.DownstreamResumeRequest:
+				res = append(res, fmt.Sprintf("  %s %s stream=%s alias=%d req=%d ok=%v t=%s", r.Dir, r.Class, m.StreamID.String()[:8], m.DesiredStreamIDAlias, m.RequestID, r.OK, r.VT.Format("04:05.000")))
+			case *message.DownstreamResumeResponse:
+				res = append(res, fmt.Sprintf("  %s %s req=%d code=%d ok=%v t=%s", r.Dir, r.Class, m.RequestID, m.ResultCode, r.OK, r.VT.Format("04:05.000")))
+			case *message.UpstreamCloseRequest:
+				res = append(res, fmt.Sprintf("  %s %s stream=%s ok=%v t=%s", r.Dir, r.Class, m.StreamID.String()[:8], r.OK, r.VT.Format("04:05.000")))
+			case *message.DownstreamCloseRequest:
+				res = append(res, fmt.Sprintf("  %s %s stream=%s ok=%v t=%s", r.Dir, r.Class, m.StreamID.String()[:8], r.OK, r.VT.Format("04:05.000")))
+			}
+		}
+	}
+	return res
 }
 
 func faultKey(s reconlib.Scenario) string {
